@@ -9,9 +9,9 @@ package ledger
 
 import (
 	"context"
-	"os"
 	"errors"
 	"fmt"
+	"os"
 	"testing"
 
 	"github.com/algorand/go-algorand/data/basics"
@@ -46,7 +46,7 @@ func c11CheckTail(s *hlSim, committed []c11Committed, after string) {
 			c.Distinct(fmt.Sprintf("age%d|%s", min(int(next-ct.round), 16), after))
 			continue
 		}
-		c.Violation("committed-txn-not-detected-as-duplicate", map[string]any{"debug": c11Debug(s, ct),"txid": ct.stxn.ID().String(), "committed_round": ct.round, "first_valid": tx.FirstValid, "last_valid": tx.LastValid, "next_round": next, "after_action": after, "checkdup_error": fmt.Sprint(err), "dbRound": s.l.LatestTrackerCommitted(), "config": s.cfg.String(), "trace": s.traceTail(25)})
+		c.Violation("committed-txn-not-detected-as-duplicate", map[string]any{"debug": c11Debug(s, ct), "txid": ct.stxn.ID().String(), "committed_round": ct.round, "first_valid": tx.FirstValid, "last_valid": tx.LastValid, "next_round": next, "after_action": after, "checkdup_error": fmt.Sprint(err), "dbRound": s.l.LatestTrackerCommitted(), "config": s.cfg.String(), "trace": s.traceTail(25)})
 	}
 }
 
